@@ -146,6 +146,24 @@ def _readonly(case):
     return code, before == after, sorted(set(after) ^ set(before)) + sorted(k for k in before if k in after and before[k] != after[k])
 
 
+def _lint_reuse(case):
+    """one PyMarkdownLint object used for two invocations: a scan of `first`, then a fix of `second`; the fix must end as it does on a fresh object"""
+    first, second, scheme = case
+    from pymarkdown.main import PyMarkdownLint
+    pre = list(SCHEMES[scheme])
+    with Scratch("pv-c10l-") as d:
+        open(os.path.join(d, "a.md"), "w", encoding="utf-8", newline="").write(first)
+        open(os.path.join(d, "b.md"), "w", encoding="utf-8", newline="").write(second)
+        lint = PyMarkdownLint()
+        c1, _, _ = impl.run_cli(pre + ["scan", "a.md"], cwd=d, lint=lint)
+        c2, o2, _ = impl.run_cli(pre + ["fix", "b.md"], cwd=d, lint=lint)
+        a2 = open(os.path.join(d, "b.md"), encoding="utf-8", newline="").read()
+        open(os.path.join(d, "b.md"), "w", encoding="utf-8", newline="").write(second)
+        c3, o3, _ = impl.run_cli(pre + ["fix", "b.md"], cwd=d)
+        a3 = open(os.path.join(d, "b.md"), encoding="utf-8", newline="").read()
+    return c1, (c2, o2.count("Fixed:"), a2), (c3, o3.count("Fixed:"), a3)
+
+
 def run(ctx):
     ctx.prove("Props/C10.v", ["Gen/ReturnCodes.v", "Gen/FinalCategory.v", "Model/Runner.v", "Proofs/RunnerProofs.v", "Model/FixPass.v", "Proofs/FixPassProofs.v"])
     rng = core.random.Random(ctx.seed)
@@ -233,6 +251,14 @@ def run(ctx):
                 ctx.violation("api", inp, f"fix_string: was_fixed={r[1]} but text changed={r[2] != d}", group="api-string")
             if (d, sch) in base and base[(d, sch)] != r[2]:
                 ctx.violation("api", inp, "fix_string and fix_path produce different text", group="api-differ")
+    # ---- one application object used twice: what an earlier invocation counted must not decide how a fix ends
+    lcases = [(a, b, sch) for a in ("#  a\n\nb   \n", "# ok\n", "a\tb\n") for b in ("#  a\n", "# ok\n", "a   \nb", "1. a\n1. b\n3. c\n") for sch in SCHEMES]
+    for (a, b, sch), (c1, second, fresh) in zip(lcases, impl.pmap(_lint_reuse, lcases, chunksize=4)):
+        ctx.count(1, "reused-application-object")
+        ctx.seen(["reuse", a, b, sch])
+        if second != fresh:
+            ctx.violation("exit", {"docs": [a, b], "scheme": sch, "history": "scan of the first file, then fix of the second, on one PyMarkdownLint object"},
+                          f"the fix ends with (exit, announcements, content) {second} after a scan (exit {c1}) on the same object; on a fresh object {fresh}", group="exit-reused-object")
     # ---- scan, scan-stdin, listing and the informational sub-commands are read-only
     ro = [(["scan", "."], None), (["scan", "-r", "."], None), (["scan", "a.md", "b.md"], None), (["scan", "-l", "-r", "."], None), (["fix", "-l", "."], None),
           (["scan-stdin"], "#  a\n\nb   \n"), (["--continue-on-error", "scan-stdin"], "a\tb\n"), (["plugins", "list"], None), (["plugins", "info", "md009"], None),
@@ -256,7 +282,7 @@ def run(ctx):
     ]
     return ctx.finish(
         level="proof",
-        rule="30 hand-picked + sampled repository-corpus and trigger documents, alone and in random sets of 2-3 files, both return-code schemes, with the pass-level debug output; the API (fix_path, fix_string) under both schemes; 18 non-fixing commands (and 12 of them cut short by a failing plug-in) for the read-only part; non-trivial = a run that changed some file, or a read-only command; distinct by input",
+        rule="30 hand-picked + sampled repository-corpus and trigger documents, alone and in random sets of 2-3 files, both return-code schemes, with the pass-level debug output; the API (fix_path, fix_string) under both schemes; a PyMarkdownLint object used for a scan and then a fix (24 histories); 18 non-fixing commands (and 12 of them cut short by a failing plug-in) for the read-only part; non-trivial = a run that changed some file, or a read-only command; distinct by input",
         assumptions=["runs that end with an application error are C15's business and are skipped here",
                      "'announced -> bytes differ' is not a theorem of the bookkeeping (a rule could register a fix that changes nothing): it is judged on the implementation only"],
     )
